@@ -10,6 +10,8 @@
 (*   decode   loads did not return what _from_element / the unwrap rule     *)
 (*            gives for the observed document                               *)
 (*   C04_*    the property's own predicates on the observed results         *)
+(*   xml:key-with-colon   any of the above on an XML run whose tree has a   *)
+(*            map key containing ":" (known finding C04-xml-colon-key)      *)
 (* One initial state per case; nothing is compared outside a format's       *)
 (* domain as the specification defines it.                                  *)
 (***************************************************************************)
@@ -29,7 +31,7 @@ SpecOut(c, r) == FmtLoads(FmtGet(r.fmt, r.lopts), SeenDoc(c, r))
 SameOut(m, o) == IF m.ok THEN o.ok /\ SameTree(m.v, o.v) ELSE ~o.ok
 
 Flag(name, i) == {[c |-> name, i |-> i]}
-RunBad(c, r, i) ==
+RunBad0(c, r, i) ==
     IF r.skipped THEN {}
     ELSE (IF ~r.dumped THEN Flag("dumps-raised", i)
           ELSE (IF r.fmt = "xml" /\ r.elem # SpecDoc(c, r).root THEN Flag("element", i) ELSE {})
@@ -38,14 +40,21 @@ RunBad(c, r, i) ==
                          ELSE IF SameOut(m, r.out) THEN {} ELSE Flag("decode", i)))
          \cup (IF P_RoundTrip(c.t, r) THEN {} ELSE Flag("C04_RoundTrip", i))
          \cup (IF P_WrongRootRejected(r) THEN {} ELSE Flag("C04_WrongRootRejected", i))
+\* every failure of an XML run on a tree with a colon key is the known finding, under one name
+RunBad(c, r, i) ==
+    LET b == RunBad0(c, r, i)
+    IN  IF b # {} /\ ColonCause(r.fmt, c.t) THEN Flag("xml:key-with-colon", i) ELSE b
 
 Verdict(c) ==
     LET runs == Runs(c)
+        \* the cross-run predicates leave those runs out (their failure is already named)
+        rest == [i \in DOMAIN runs |-> IF ColonCause(runs[i].fmt, c.t) THEN [runs[i] EXCEPT !.skipped = TRUE]
+                                        ELSE runs[i]]
     IN  [t |-> tid,
          checked |-> Cardinality({i \in DOMAIN runs : ~runs[i].skipped}),
          bad |-> UNION {RunBad(c, runs[i], i) : i \in DOMAIN runs}
-                 \cup (IF P_OptionsNeutral(runs) THEN {} ELSE Flag("C04_OptionsNeutral", 0))
-                 \cup (IF P_Agree(runs) THEN {} ELSE Flag("C04_Agree", 0))
+                 \cup (IF P_OptionsNeutral(rest) THEN {} ELSE Flag("C04_OptionsNeutral", 0))
+                 \cup (IF P_Agree(rest) THEN {} ELSE Flag("C04_Agree", 0))
                  \cup (IF P_XmlInverse(c.t, {r.opts.root_tag : r \in {runs[i] : i \in {j \in DOMAIN runs : runs[j].fmt = "xml" /\ ~runs[j].skipped}}})
                        THEN {} ELSE Flag("C04_XmlInverse", 0))]
 
